@@ -37,8 +37,8 @@ func init() {
 			"(1) schema-valid messages with every subset (quick: size<=2 + sample; thorough: all) of optional elements/attributes removed and a valid IdP signature re-applied; (2) structure and byte mutations of those and of the repository fixtures, degenerate/rootless documents, base64 and deflate framings incl. inflate bombs around the 10 MB limit; (3) resolver/transport fault behaviours. " +
 			"Oracle: no panic, CPU and allocation below blow-up thresholds, response-parsing errors are *InvalidResponseError with the constant message and assertion nil iff error. Non-trivial = the input was handed to the entry point and it returned (distinct by entry point + case descriptor).",
 		Assumptions: []string{"invalid configuration (nil IDPMetadata, nil keys) is not an input", "blocking on a peer that never answers is the caller's context's business", "blow-up thresholds: 20 s CPU or 1.5 GiB allocated in one call (unchanged tree stays below 1/10 of that on the corpus)"},
-		FloorQuick:  20000,
-		FloorThor:   300000,
+		FloorQuick:  7000,
+		FloorThor:   20000,
 		Run:         runC09,
 		TimeoutQ:    15 * time.Minute,
 		LevelText:   "Validly signed messages with optional parts missing (unreachable for fuzzers without the IdP key), plus structure/byte mutants and framing attacks, are executed against every consuming entry point under a panic/CPU/allocation sentinel and an error-contract oracle. Held-on-observed; thorough adds far larger samples.",
